@@ -37,9 +37,11 @@ def oneline(value: object) -> str:
     Control characters are escaped rather than dropped, so what the peer sent is still
     visible to whoever is reading, and still only one line.
     """
+    # the event is written to the helper as ASCII: a printable but non ASCII character (a host name of
+    # 'hé', the U+FFFD of a replaced byte) made that encoding raise in the middle of the peer loop
     text = str(value)
     return ''.join(
-        character if character.isprintable() or character == ' ' else repr(character)[1:-1] for character in text
+        character if character.isascii() and character.isprintable() else ascii(character)[1:-1] for character in text
     )
 
 
